@@ -135,18 +135,16 @@ Example C12_prune_zero_width_refuted :
   /\ bezier_intersections NumQ (bbox_quad NumQ) tol12 tol12 flatq 60 archq = IOk [].
 Proof. vm_compute. split; reflexivity. Qed.
 
-(* remove-while-iterating: two parabolas with the same x(t) = 4t crossing at
-   t = 1/2 -+ sqrt(1/12); y1 - y2 changes sign between t = 3/4 and t = 4/5, so
-   there is a crossing in that interval, but the machine (as the code) reports
-   only the crossing in the left half: when the first small pair is reported,
-   removing it from the list being iterated makes the iterator skip the pair
-   that holds the second crossing *)
-Definition para1 := [zc 0 0; zc 2 4; zc 4 0].
-Definition para2 := [zc 0 3; zc 2 (-2); zc 4 3].
-Definition ydiff (t : Qc) : Qc := (snd (bezier_point NumQ para1 t) - snd (bezier_point NumQ para2 t))%Qc.
+(* remove-while-iterating: two parabolas that cross at t1 = t2 = 1/3 (point
+   12+53i) and at t1 = t2 = 2/3 (point 24+50i), both transversally.  The machine
+   (as the code) reports only the first: when the small pair of the first
+   crossing is reported, removing it from the list being iterated makes the
+   iterator skip the pair that holds the second crossing *)
+Definition para1 := [zc 0 54; zc 18 54; zc 36 45].
+Definition para2 := [zc 0 22; zc 18 94; zc 36 13].
 Example C12_subdiv_skip_refuted :
-  qlist_eqb (map fst para1) (map fst para2) = true
-  /\ Qc_ltb (q 0 1) (ydiff (q 3 4)) = true /\ Qc_ltb (ydiff (q 4 5)) (q 0 1) = true
+  ceqb NumQ (bezier_point NumQ para1 (q 1 3)) (bezier_point NumQ para2 (q 1 3)) = true
+  /\ ceqb NumQ (bezier_point NumQ para1 (q 2 3)) (bezier_point NumQ para2 (q 2 3)) = true
   /\ match bezier_intersections NumQ (bbox_quad NumQ) tol12 tol12 para1 60 para2 with
      | IOk [(t1, t2)] => Qc_ltb t1 (q 1 2) && Qc_ltb t2 (q 1 2)
      | _ => false end = true.
